@@ -71,7 +71,7 @@ Section MapLemmas.
     - intros H. destruct (IH H) as [N I]. split; [exact N|right; exact I].
     - intros [H|H].
       + inversion H. subst. split; [|left; reflexivity].
-        intros ->. rewrite (eqb_refl' eqb eqb_spec) in E. discriminate.
+        intros ->. rewrite eqb_refl' in E. discriminate.
       + destruct (IH H) as [N I]. split; [exact N|right; exact I].
   Qed.
 
@@ -998,9 +998,9 @@ Proof.
 Qed.
 
 (* what the key of a declared writer is, in the oracle's terms *)
-Lemma decl_wkey : forall s w wr b, getN w (i_writers i) = Some (w_url wr, b) ->
+Lemma decl_wkey : forall w (wr : wrec) b, getN w (i_writers i) = Some (w_url wr, b) ->
   wkey i w = key sha (w_url wr) /\ wbundle i w = b.
-Proof. intros s w wr b G. unfold wkey, wbundle, ukey. rewrite G. split; reflexivity. Qed.
+Proof. intros w wr b G. unfold wkey, wbundle, ukey. rewrite G. split; reflexivity. Qed.
 
 (* ---------- the listing ---------- *)
 Lemma listing_model_ok : forall s, good s ->
@@ -1012,7 +1012,7 @@ Proof.
   intros s [I W D]. apply forallb_forall. intros [name tag] Hin.
   unfold listing in Hin. apply in_map_iff in Hin. destruct Hin as [[n ino] [E Hin]].
   cbn in E. inversion E; subst; clear E. cbn [fst snd].
-  destruct (keyshape n) eqn:Ks; [|reflexivity].
+  destruct (keyshape name) eqn:Ks; [|reflexivity].
   pose proof (W _ _ Hin) as G.
   destruct (inv_d _ _ I _ _ G) as [T|[wr [Dn K]]].
   { rewrite (temp_not_keyshape _ T) in Ks. discriminate. }
@@ -1020,7 +1020,67 @@ Proof.
   destruct (D _ _ (proj1 Dn)) as [b [Gw C]].
   apply existsb_exists. exists (ino, (w_url wr, b)). split.
   - exact (get_in N.eqb Neqb_spec _ _ _ Gw).
-  - cbn [fst]. destruct (decl_wkey s _ _ _ Gw) as [Wk Wb]. rewrite Wk, Wb, K, C, str_dat.
+  - cbn [fst]. destruct (decl_wkey _ _ _ Gw) as [Wk Wb]. rewrite Wk, Wb, K, C, str_dat.
     rewrite !String.eqb_refl. reflexivity.
+Qed.
+
+(* ---------- a whole read in a good state ---------- *)
+Lemma read_result : forall s r u s', good s ->
+  exec sha s (read_events sha r u s) = Some s' ->
+  getN r (s_r s) = None /\
+  ((getS (key sha u) (s_dir s) = None /\ oread_of s' r = OMiss) \/
+   (exists L wr b, getS (key sha u) (s_dir s) = Some L /\ done_at s L wr /\
+      getN L (i_writers i) = Some (w_url wr, b) /\ key sha (w_url wr) = key sha u /\
+      oread_of s' r = OHit b)).
+Proof.
+  intros s r u s' [I W D] H. unfold read_events in H.
+  destruct (getS (key sha u) (s_dir s)) as [L|] eqn:Gk.
+  - destruct (inv_d _ _ I _ _ Gk) as [T|[wr [Dn K]]].
+    { rewrite key_not_temp in T. discriminate. }
+    pose proof (done_data _ _ _ _ I Dn) as Gd. rewrite Gd in H.
+    destruct (D _ _ (proj1 Dn)) as [b [Gw C]].
+    cbn in H. destruct (getN r (s_r s)) eqn:Gr; [discriminate|]. split; [reflexivity|].
+    rewrite Gk in H. cbn in H.
+    rewrite (get_put_eq N.eqb Neqb_spec) in H. cbn in H. rewrite Gd in H. cbn in H.
+    rewrite (get_put_eq N.eqb Neqb_spec) in H. cbn in H. rewrite Gd in H.
+    rewrite firstn_all in H. rewrite Nat.leb_refl in H. inversion H; subst s'; clear H.
+    right. exists L, wr, b. split; [reflexivity|]. split; [exact Dn|]. split; [exact Gw|]. split; [exact K|].
+    unfold oread_of. cbn. rewrite (get_put_eq N.eqb Neqb_spec). cbn. rewrite C, str_dat. reflexivity.
+  - cbn in H. destruct (getN r (s_r s)) eqn:Gr; [discriminate|]. split; [reflexivity|].
+    rewrite Gk in H. inversion H; subst s'; clear H. left. split; [reflexivity|].
+    unfold oread_of. cbn. rewrite (get_put_eq N.eqb Neqb_spec). reflexivity.
+Qed.
+
+Definition read_check (rr : readrec) : bool :=
+  let '(_, u, res) := rr in
+  match res with
+  | OMiss => true
+  | OHit b => existsb (fun w => String.eqb (wkey i (fst w)) (ukey i u) && String.eqb (wbundle i (fst w)) b)
+                      (i_writers i)
+  | _ => false
+  end.
+
+Lemma reads_model_ok : forall sched s ps rs sf, good s -> mgo i s sched = Some (ps, rs, sf) ->
+  forallb read_check rs = true /\ good sf.
+Proof.
+  induction sched as [|e sched IH]; intros s ps rs sf G H; cbn in H.
+  - inversion H; subst. split; [reflexivity|exact G].
+  - destruct e as [w|r u|w|w ok|r u|r]; try exact (IH _ _ _ _ G H).
+    + destruct (exec sha s (fst (macro i s w))) as [s1|] eqn:E; [|discriminate].
+      destruct (mgo i s1 sched) as [[[ps1 rs1] sf1]|] eqn:M; [|discriminate].
+      inversion H; subst; clear H.
+      destruct (macro_ok s w) as [Sf Dc].
+      exact (IH _ _ _ _ (exec_good _ _ _ G Sf Dc E) M).
+    + destruct (exec sha s (read_events sha r u s)) as [s1|] eqn:E; [|discriminate].
+      destruct (mgo i s1 sched) as [[[ps1 rs1] sf1]|] eqn:M; [|discriminate].
+      inversion H; subst; clear H.
+      destruct (read_events_ok r u s) as [Sf Dc].
+      destruct (IH _ _ _ _ (exec_good _ _ _ G Sf Dc E) M) as [F Gf]. split; [|exact Gf].
+      cbn [forallb]. rewrite F, andb_true_r.
+      destruct (read_result _ _ _ _ G E) as [_ [[_ ->]|[L [wr [b [Gk [Dn [Gw [K ->]]]]]]]]]; [reflexivity|].
+      cbn. apply existsb_exists. exists (L, (w_url wr, b)). split.
+      * exact (get_in N.eqb Neqb_spec _ _ _ Gw).
+      * cbn [fst]. destruct (decl_wkey _ _ _ Gw) as [Wk Wb]. rewrite Wk, Wb. unfold ukey. rewrite K.
+        rewrite !String.eqb_refl. reflexivity.
 Qed.
 End Oracle.
